@@ -420,6 +420,10 @@ def make_file_pair(rng, fmt, workdir, n=None, pos_cls=None):
             # a file whose last line has no line terminator
             txt = open(pth, newline="").read()
             open(pth, "w", newline="").write(txt.rstrip("\r\n"))
+    if fmt == "tum" and rng.random() < .3:
+        # a sparse reference and a dense estimate: the two files change roles
+        return {"fmt": fmt, "ref_path": estp, "est_path": refp, "offset": -offset, "dt": dt, "ext": ext,
+                "n_ref": len(idx), "n_est": n, "t_ref": t_est, "t_est": ref["t"]}
     return {"fmt": fmt, "ref_path": refp, "est_path": estp, "offset": offset, "dt": dt, "ext": ext,
             "n_ref": n, "n_est": len(idx), "t_ref": ref["t"], "t_est": t_est}
 
@@ -498,7 +502,10 @@ def draw_common_options(rng, fp, force=()):
         o["n_to_align"] = int(rng.integers(3, max(4, fp["n_est"] + 2)))
         argv += ["--n_to_align", str(o["n_to_align"])]
     if rng.random() < .25:
-        o["downsample"] = int(rng.integers(2, fp["n_ref"] + 3))
+        o["downsample"] = int(rng.integers(2, max(fp["n_ref"], fp["n_est"]) + 3))
+        lo, hi = sorted((fp["n_ref"], fp["n_est"]))
+        if lo < hi and lo >= 2 and rng.random() < .5:
+            o["downsample"] = int(rng.integers(lo, hi))  # only one of the two trajectories is longer than N
         argv += ["--downsample", str(o["downsample"])]
     if rng.random() < .25:
         d = float(fp["ext"] * 10.0**rng.uniform(-2, -0.3)) if rng.random() < .8 else 0.0
